@@ -65,10 +65,10 @@ export VERIF_BIN_DIR="$ROOT/.bin" VERIF_BIN_PREFIX="$id_lc"
 timeout -s QUIT -k 20 "$WD" "$BIN" > ".out/$id_lc.log" 2>&1
 rc=$?
 # print verdict-relevant lines (full log stays in .out)
-grep -E '^(VIOLATION|KNOWN-FINDING|SUMMARY|INCONCLUSIVE|NOTE|  signature:|  clause:)' ".out/$id_lc.log"
+grep -a -E '^(VIOLATION|KNOWN-FINDING|SUMMARY|INCONCLUSIVE|NOTE|  signature:|  clause:)' ".out/$id_lc.log"
 python3 tools/race_filter.py "$ID" ".out/$id_lc.race" "$MODE"
 rrc=$?
-if grep -q '^VIOLATION ' ".out/$id_lc.log" || [ "$rrc" = 1 ]; then
+if grep -a -q '^VIOLATION ' ".out/$id_lc.log" || [ "$rrc" = 1 ]; then
   exit 1
 fi
 if [ "$rc" = 0 ]; then
@@ -77,7 +77,7 @@ fi
 if [ "$rc" = 1 ]; then
   echo "INCONCLUSIVE property=$ID exit 1 without a VIOLATION line"
 fi
-if [ "$rc" != 2 ] || ! grep -q '^INCONCLUSIVE' ".out/$id_lc.log"; then
+if [ "$rc" != 2 ] || ! grep -a -q '^INCONCLUSIVE' ".out/$id_lc.log"; then
   echo "INCONCLUSIVE property=$ID check ended abnormally (rc=$rc); tail of log:"
   tail -n 40 ".out/$id_lc.log"
 fi
